@@ -205,9 +205,10 @@ Fixpoint ac_bloc (n_cross : nat) (i : nat) (prev_bloc prev_opp : list pcand) (p_
 Fixpoint insert_by (x : pcand * Q) (l : list (pcand * Q)) : list (pcand * Q) :=
   match l with
   | [] => [x]
-  | y :: l' => if Qlt_bool (snd x) (snd y) then x :: l else y :: insert_by x l'
+  | y :: l' => if Qle_bool (snd x) (snd y) then x :: l else y :: insert_by x l'
   end.
-(* stable: equal keys keep candidate order (insertion from the right, strict <) *)
+(* stable, like Python's sorted: equal keys keep candidate order (elements are inserted from the
+   right, and an element goes in front of the equal keys already placed) *)
 Definition sort_by_distance (cands : list pcand) (dists : list Q) : list pcand :=
   map fst (fold_right insert_by [] (combine cands dists)).
 
